@@ -41,10 +41,11 @@ def panic_sources(F, b, fold_consts=True):
         if t["t"] == "assert":
             kind = t["kind"]
             if fold_consts and (kind.startswith("Overflow") or kind == "OverflowNeg"):
-                ops = [fmt.fold(b.expr_of_operand(o, s)) for o in t["ops"]]
-                if all(o is not None for o in ops):
+                sets = [fmt.fold_set(b.expr_of_operand(o, s)) for o in t["ops"]]
+                if all(o is not None for o in sets):
+                    import itertools
                     tys = [o.get("ty") or (o.get("pl") or {}).get("ty", "") for o in t["ops"]]
-                    if _no_overflow(kind, ops, tys):
+                    if all(_no_overflow(kind, list(combo), tys) for combo in itertools.product(*sets)):
                         continue
             if kind in ("MisalignedPointerDereference", "NullPointerDereference") or "Pointer" in kind:
                 continue  # debug-build pointer checks inserted by rustc on raw derefs (vec! internals)
@@ -141,7 +142,7 @@ def r1_panic_free(ck, F):
         ck.ob("C13-R2", f"loop-free/{p}", not b.loops(), f"{p.split('::')[-1]} has no loop", b)
     ck.ob(R, "no-panic-source-in-open-path", npan == 0, f"{len(bodies)} bodies, {nasrt} assert terminators (all constant-folded), 0 explicit panics, 0 bounds checks, 0 may-panic std calls", config=F.config)
     if F.config != "rel":
-        ck.floor(R, "overflow assertions discharged by constant folding", nasrt, 5, F.config)
+        ck.floor(R, "overflow assertions discharged by constant folding", nasrt, 2, F.config)   # 5 on the pinned tree (one per footer-size computation)
     ck.ob("C13-R2", "no-recursion", not rec, "no recursion in the open path", config=F.config)
     bad = sorted(n for n in ext if not _allowed(n))
     ck.ob(R, "external-callees-allowlisted", not bad, f"external callees of the open path: {sorted(ext)}" + (f" — not on the panic-free allowlist: {bad}" if bad else ""), config=F.config)
@@ -220,7 +221,7 @@ def r3_accept_table(ck, F):
     ck.ob(R, "rejections-are-io-or-codec", set(kinds) <= allowed, f"`?` rejections come from {sorted(set(kinds))}", b)
     ck.floor(R, "`?` rejection exits in read_from", len(kinds), 7, F.config)   # 13 on the pinned tree; 7 = one version's worth
     explicit = [x[1] for x in exits if x[0] == "explicit"]
-    ck.ob(R, "only-explicit-rejection-is-bad-magic", bool(explicit) and set(explicit) == {"error::Error::InvalidFormatVersion{}"}, f"explicit Err exits: {explicit} (expected only InvalidFormatVersion for an unknown magic)", b)
+    ck.ob(R, "only-explicit-rejection-is-bad-magic", "error::Error::InvalidFormatVersion{}" in explicit and set(explicit) <= {"error::Error::InvalidFormatVersion{}", "error::Error::InvalidCompressionType{}"}, f"explicit Err exits: {explicit} (expected InvalidFormatVersion for an unknown magic and nothing but InvalidCompressionType for an unknown codec id besides)", b)
     other = [x[1] for x in exits if x[0] == "other"]
     ck.ob(R, "exits-are-ok-err-or-question-mark", not other, f"every exit of read_from is Ok(Metadata{{..}}), `?` on an I/O or codec-id step, or the bad-magic Err" + (f" — other: {other}" if other else ""), b)
     oks = [x for x in exits if x[0] == "ok"]
@@ -232,16 +233,29 @@ def r3_accept_table(ck, F):
     other = [n for n in cs if n != A("meta_read") and not n.endswith("Result::<T, E>::map") and not n.endswith("Try>::branch") and not n.endswith("::from_residual")]
     from .errflow import propagated
     ck.ob(R, "reader-new-is-trailer-read", len(rd) == 1 and not other and not rn.loops() and propagated(F, rn, rd[0]) and is_arg(rn.arg_exprs(rd[0])[0], "reader"), f"Reader::new = Metadata::read_from(&mut reader) with its error propagated and nothing else ({cs})", rn)
-    # every branch in read_from is one of: `?`, the magic switch, the version match
-    sws = []
+    # every decision in read_from is about the magic just read, the version it denotes or the codec id: nothing
+    # else (a length, another byte, a flag) can make a trailer accepted or rejected
+    mread = [s for s, c, t in b.calls() if c and c["path"].endswith("read_u32")]
+    other = []
+    nmagic = nver = 0
     for bb in sorted(b.normal_blocks()):
         t = b.term(bb)
-        if t["t"] == "switch":
-            e, enum, labels, oth = switch_on(b, bb)
-            if enum == "std::ops::ControlFlow":
-                continue
-            sws.append(enum or e.show()[:50])
-    ck.ob(R, "no-other-decision", len(sws) == 2 and any(x and x.endswith("FileVersion") for x in sws), f"decisions in read_from besides `?`: {sws} (the magic switch and the version match)", b)
+        if t["t"] != "switch":
+            continue
+        e, enum, labels, oth = switch_on(b, bb)
+        if enum == "std::ops::ControlFlow":
+            continue
+        leaves = [x for x in e.walk() if x.k == "call" and not x.x["path"].endswith(("Try>::branch", "::from_residual"))]
+        about_magic = bool(mread) and any(x.x.get("site") == mread[0] for x in leaves) and all(x.x.get("site") == mread[0] or x.x["path"].endswith(("::ok_or", "::ok_or_else")) for x in leaves)
+        about_codec = any(x.x["path"].endswith(A("from_u8")) for x in leaves) and all(x.x["path"].endswith((A("from_u8"), "read_u8", "::ok_or", "::ok_or_else")) for x in leaves)
+        about_version = (enum or "").endswith("FileVersion") or (not leaves and all(y.k != "arg" for y in e.walk()))
+        if about_magic:
+            nmagic += 1
+        elif about_version:
+            nver += 1
+        elif not about_codec:
+            other.append(e.show()[:60])
+    ck.ob(R, "no-other-decision", not other and nmagic >= 1, f"decisions in read_from besides `?`: {nmagic} on the magic, {nver} on the version, the rest on the codec id" + (f" — others: {other}" if other else ""), b)
 
 
 def r4_trailer_last(ck, F):
